@@ -156,8 +156,10 @@ Fixpoint compile_rules (unq : bool -> str -> uq) (names : list str) (rs : list r
       Ok (fst r :: fst rest, snd r + snd rest)
   end.
 
+(* fuel of First: a path descends through the option and then through each rule body at most once
+   (Var.First nils Elem while inside); twice the total size + the number of rules is ample *)
 Definition fill_fuel (env : list (option m)) : nat :=
-  S (fold_right (fun o a => match o with Some g => msize g | None => 0 end + a) (length env) env).
+  S (2 * fold_right (fun o a => match o with Some g => msize g | None => 0 end + a) (length env) env).
 
 (* CheckConflicts for every choice of every compiled body; None = RecursiveError *)
 Fixpoint fill_env (env0 : list (option m)) (fuel : nat) (l : list (option m)) : option (list (option m)) :=
